@@ -416,9 +416,10 @@ static void handle(size_t nw, char **w) {
 	else if (!strcmp(w[0], "envseq") && nw == 5) {      /* envseq <rcpts> <member> <outsider> <content>: the same frame opens twice */
 		int ids[8]; size_t n = parse_ids(w[1], ids, 8); int mem = atoi(w[2]), out = atoi(w[3]); buf_t c = hex2buf(w[4]); blob_t m; int r1, r2, r3;
 		if (n == (size_t)-1 || mem < 1 || mem > NK || out < 1 || out > NK) { printf("ERR ids"); free(c.p); return; }
-		m = make_env(ids, n, OID_cms_data, &c);
+		cur_key = POISONKEY; m = make_env(ids, n, OID_cms_data, &c); cur_key = SYMKEY;
 		if (!m.p) { printf("E=ERR"); free(c.p); return; }
-		r1 = open_env(&m, &keys_pub[mem], mem, &c); r2 = open_env(&m, &keys_pub[out], out, &c); r3 = open_env(&m, &keys_pub[mem], mem, &c);
+		poison_stack(); r2 = open_env(&m, &keys_pub[out], out, &c);
+		r1 = open_env(&m, &keys_pub[mem], mem, &c); r2 = r2 ? r2 : open_env(&m, &keys_pub[out], out, &c); r3 = open_env(&m, &keys_pub[mem], mem, &c);
 		printf("E=1 member=%s outsider=%s member-again=%s", res(r1), res(r2), res(r3));
 		r1 = open_env_low(&m, mem, &c); r2 = open_env_low(&m, out, &c); r3 = open_env_low(&m, out, &c);
 		printf(" low:member=%s outsider=%s outsider-again=%s", res(r1), res(r2), res(r3));
@@ -427,9 +428,10 @@ static void handle(size_t nw, char **w) {
 	else if (!strcmp(w[0], "signenvseq") && nw == 5) {
 		int ids[8], s1[] = { 1 }; size_t n = parse_ids(w[1], ids, 8); int mem = atoi(w[2]), out = atoi(w[3]); buf_t c = hex2buf(w[4]); blob_t m; int r1, r2;
 		if (n == (size_t)-1 || mem < 1 || mem > NK || out < 1 || out > NK) { printf("ERR ids"); free(c.p); return; }
-		m = make_signenv(s1, 1, ids, n, OID_cms_data, &c, 1);
+		cur_key = POISONKEY; m = make_signenv(s1, 1, ids, n, OID_cms_data, &c, 1); cur_key = SYMKEY;
 		if (!m.p) { printf("E=ERR"); free(c.p); return; }
-		r1 = open_signenv(&m, &keys_pub[mem], mem, &c); r2 = open_signenv(&m, &keys_pub[out], out, &c);
+		poison_stack(); r2 = open_signenv(&m, &keys_pub[out], out, &c);
+		r1 = open_signenv(&m, &keys_pub[mem], mem, &c); r2 = r2 ? r2 : open_signenv(&m, &keys_pub[out], out, &c);
 		printf("E=1 member=%s outsider=%s", res(r1), res(r2));
 		r1 = open_signenv_low(&m, mem, &c); r2 = open_signenv_low(&m, out, &c);
 		printf(" low:member=%s outsider=%s", res(r1), res(r2));
